@@ -40,6 +40,14 @@ func (t *tr) closure(fl *ast.FuncLit) string {
 			continue // (C03) contexts are not modelled: the call sites drop the argument, the lambda drops the parameter
 		}
 		for _, n := range f.Names {
+			if bt, typed := sp.ClosureBinderTypes[exprString(f.Type)]; typed {
+				nm := "_"
+				if n.Name != "_" {
+					nm = t.ident(n.Name)
+				}
+				names = append(names, "("+nm+" : "+bt+")")
+				continue
+			}
 			if n.Name == "_" {
 				names = append(names, "_")
 				continue
